@@ -411,6 +411,10 @@ impl<'a> Cmp<'a> {
             }
         });
         self.eq(n, "is_fragmenting_payload", s.is_fragmenting_payload(), frag);
+        if let Some(m) = super::iterlaws::iter_laws(&s.clone().into_iter(), self.d.len() + 2) {
+            self.fail(n, "iter-methods-follow-next", m);
+            return;
+        }
         let mut i = 0usize;
         for item in s.clone().into_iter() {
             if i >= exts.len() {
